@@ -118,6 +118,11 @@ class BaseElementLocator
 
     void move_elements_forward(std::size_t from, std::size_t to, std::byte* memory_begin) noexcept
     {
+        if (from == element_addresses_.size())
+        {
+            // nothing follows the erased elements and the table has no (written) slot for index size()
+            return;
+        }
         const auto diff = detail::move_elements(from, to, memory_begin, *this);
         const auto new_end = std::transform(element_addresses_.begin() + from, element_addresses_.end(),
                                             element_addresses_.begin() + to,
